@@ -97,12 +97,13 @@ def cli_args(seed=None, width=None, length=None, rb=None, lb=None, tb=None, lt=N
     return a
 
 
-def run_generator_cli(args):
-    """roberta_generator.main() in-process: argv patched, cwd = clean scratch dir with inputs/.
-    Returns (kind, payload, files): kind 'ok' | 'exc' | 'exit'; files = {name: bytes} under inputs/."""
+def run_generator_cli(args, clean=True):
+    """roberta_generator.main() in-process: argv patched, cwd = scratch dir with inputs/ (emptied first
+    unless clean=False).  Returns (kind, payload, files): kind 'ok' | 'exc' | 'exit'; files = {name: bytes}
+    under inputs/ afterwards."""
     import sys
     r = repo()
-    d = clean_scratch()
+    d = clean_scratch() if clean else scratch_dir()
     cwd = os.getcwd()
     argv = sys.argv
     os.chdir(d)
